@@ -6,6 +6,7 @@ import Panacea.Driver.Pnft
 import Panacea.Driver.Tx
 import Panacea.Driver.Bank
 import Panacea.Driver.Keystore
+import Panacea.Model.SignBytes
 /-! Model driver: one operation per input line, one answer per output line. -/
 open Panacea Panacea.Driver
 
@@ -33,6 +34,11 @@ def stepLine (st : DState) (line : String) : DState × String :=
     | _, _, _ => (st, "bad-op")
   | ["mon.c08.utf8"] => (st, "pass")      -- what C08 demands; the implementation fails it (known finding F15)
   | ["genesis.roundtrip"] => (st, "ok")     -- identity on the modelled state: Properties/C08
+  | "sb.legacy" :: "aol" :: rest =>       -- exact legacy sign bytes of an AOL message (Properties/C14)
+    match aolParseMsg rest with
+    | some m => (st, "ok " ++ (SignBytes.aolRender m).toHex)
+    | none => (st, "bad-op")
+  | "mon.c14.pair" :: _ => (st, "pass")   -- two different messages never share sign bytes: what C14 demands
   | ["reset"] => ({ st with aol := {}, did := {}, pnft := {}, tx := {} }, "-")
   | ["now", n] =>
     match n.toInt? with
